@@ -23,6 +23,7 @@ var (
 	flagTier     = flag.String("tier", "quick", "quick | thorough")
 	flagRepo     = flag.String("repo", "/repo", "repository to verify")
 	flagVerif    = flag.String("verif", "/verif", "verification directory")
+	flagOut      = flag.String("out", "", "directory for evidence/ and replays/ (default: the verification directory)")
 	flagUnit     = flag.String("unit", "", "verify only this unit (debugging)")
 	flagTrace    = flag.Bool("trace", false, "trace executed instructions")
 	flagDump     = flag.String("dump", "", "dump SSA of functions whose name has this suffix")
@@ -184,6 +185,7 @@ func (e *Engine) verifyUnit(name string) (err error) {
 	}()
 	e.unit = name
 	e.paths = 0
+	e.freshObjs = nil
 	ct := e.spec.Contracts[name]
 	// safety obligations belong to C10 for peer-reachable functions, else to the property listing the function
 	e.safetyOn = e.curProp == "ALL" || (e.curProp == "C10" && e.c10units[name]) || (e.curProp != "C10" && !e.c10units[name])
@@ -556,7 +558,10 @@ func main() {
 	if os.Getenv("GOVC_VERBOSE") != "" {
 		fmt.Fprintf(os.Stderr, "govc: %d obligation instances generated in %.1fs; %v\n", len(e.obls), time.Since(t0).Seconds(), e.unitStats)
 	}
-	outDir := filepath.Join(*flagVerif, "out")
+	if *flagOut == "" {
+		*flagOut = *flagVerif
+	}
+	outDir := filepath.Join(*flagOut, "out")
 	thorough := *flagTier == "thorough"
 	groups := e.solveAll(thorough, seed, outDir)
 	rep := e.report(prop, *flagTier, seed, groups, missing, notes, time.Since(t0).Seconds(), units)
